@@ -29,4 +29,20 @@ CHECKS = {
         need_classes=["decoy-value", "foreign:template-tag-is-suffix", "foreign:template-tag-is-prefix", "foreign:suffix-of-template-tag", "foreign:prefix-of-template-tag"],
         assumptions=["messages are well formed: BeginString first, correct BodyLength/CheckSum, unique template tags, non-empty SOH-free values"],
     ),
+    "C03": dict(
+        level="fault_enumeration",
+        rule="base messages are rapid-generated valid serialized messages (incl. adversarial ones carrying a decoy CheckSum in a value); for each base the COMPLETE single-byte damage neighbourhood is enumerated (every position x 255 substitutions, every interior insertion position x 256 values, every deletion, every proper prefix) and offered to both parser entry points; oracle: accepted => an independent reader confirms BodyLength and CheckSum. evaluations counts variants; distinct_nontrivial counts distinct base messages whose neighbourhood was enumerated completely (exhaustive per base, not over bases)",
+        jobs=[dict(pkg="codec", test="TestC03", quick=640, thorough=16000, shards=16, shrinktime=60)],
+        need_classes=["adversarial-base"],
+        coverage_extra=dict(exhaustive=False, exhaustive_note="complete per base message (see complete_neighbourhoods); base messages themselves are sampled"),
+        assumptions=["variants that remain consistently framed (NUL inserted into or deleted from the BeginString value: counted by neither BodyLength nor, being 0, the checksum) are valid messages and may be accepted; they are counted as still_framed_variants"],
+    ),
+    "C11": dict(
+        level="exploration",
+        rule="engine raw: byte strings of the classes empty/tiny/no-delimiter/no-equals/only-delimiters/repeated-delimiters/random/mutated-valid, capacity-clamped or as prefix of a larger buffer; engine framed: hostile token lists (template count tags and entry delimiters over-represented, bare tokens, empty tokens, disagreeing counts) framed by REF with correct BodyLength/CheckSum; each parsed into generated templates (nested groups) and tests/fix44 types by both parser entry points, plus fix.ValueByTag lookups, under recover() and a 20 s hang watchdog; non-trivial = input is consistently framed AND names a tag of the target template; distinct by (input, template)",
+        jobs=[dict(pkg="codec", test="TestC11Raw", quick=120000, thorough=6000000, shards=8),
+              dict(pkg="codec", test="TestC11Framed", quick=160000, thorough=8000000, shards=8)],
+        need_classes=["class:empty", "class:tiny", "class:framed-hostile", "class:framed-near-valid", "class:mutated-valid", "reached-group-splitting", "capacity-clamped"],
+        assumptions=["a single parser call on an input <= 8 KiB taking more than 20 s wall clock is a hang (expected cost: microseconds to milliseconds)"],
+    ),
 }
